@@ -88,6 +88,11 @@ pub fn module_for(id: &str, spec: &EnumSpec) -> ModuleSrc {
         "C05" => emit::module_iter(spec, &ModOpts { property: id, run_fn: "vrt::iterfam::c05", twin: None }),
         "C08" => emit::module_iter(spec, &ModOpts { property: id, run_fn: "vrt::iterfam::c08", twin: None }),
         "C06" => emit::module_repr(spec, &ModOpts { property: id, run_fn: "vrt::reprfam::c06", twin: None }),
+        "C13" => emit::module_shape(spec, &ModOpts { property: id, run_fn: "vrt::shapefam::c13", twin: None }),
+        "C14" => emit::module_string(spec, &ModOpts { property: id, run_fn: "vrt::metafam::c14", twin: None }),
+        "C15" => emit::module_string(spec, &ModOpts { property: id, run_fn: "vrt::metafam::c15", twin: None }),
+        "C10" => emit::module_table(spec, &ModOpts { property: id, run_fn: "vrt::tablefam::c10", twin: None }),
+        "C09" => emit::module_disc(spec, &ModOpts { property: id, run_fn: "vrt::discfam::c09", twin: None }),
         _ => panic!("no module emitter for {}", id),
     }
 }
@@ -418,6 +423,77 @@ pub fn plan(id: &str, tier: &str, seed: u64, round: u64) -> Plan {
                 policy: Policy::TaggedOnly,
                 rule: "programs: FromRepr enums for each repr in {none,u8,i8,u16,i16,u32,i32,u64,i64,usize,isize} with any mix of implicit and explicit discriminants (decimal, hex, shifts, sums, a typed BASE const, negative, gapped, descending, near MIN/MAX), disabled variants anywhere, data variants where rustc allows them. Inputs: EVERY value of 8/16-bit discriminant types; for wider types every discriminant +-1/+-2, 0, MIN, MAX, dense indices and proptest-generated values. Oracle: the discriminant rule over ALL declared variants (cross-checked against rustc through `v as R` / the documented pointer read on every variant), Some(V with Default payload) iff V enabled and disc(V) == d; const-evaluated from_repr for field-less enums. Non-trivial = program with a disabled variant before an enabled one, an explicit discriminant or a signed repr, and d within +-1 of a declared discriminant; distinct by (program, d).".into(),
                 assumptions: vec!["`v as R` and the primitive-repr pointer read give rustc's discriminant".into()],
+            }
+        }
+        "C14" | "C15" => {
+            let n = if thorough { 480 } else { 192 };
+            let mut cfg = string_cfg(id);
+            cfg.derives = derives(&[if id == "C14" { "EnumMessage" } else { "EnumProperty" }]);
+            cfg.allow_default = false;
+            cfg.allow_default_with = false;
+            cfg.min_variants = 1;
+            let mut specs: Vec<EnumSpec> = (0..n).map(|_| gen::gen_meta(&mut rg, &cfg, id == "C15")).collect();
+            name_specs(&mut specs, round);
+            let (rule, ass) = if id == "C14" {
+                ("programs: EnumMessage enums x all kinds x generics x message / detailed_message presence x 0..4 doc lines given as ///, /** */ or #[doc = ..] with 0..3 leading spaces, tabs, empty lines, quotes, braces, non-ASCII x all naming attributes x serialize_all x disabled variants. Oracle: model message / detailed (fallback to message) / documentation (one leading space stripped per line; one line as is, several each terminated by a newline), all None on disabled variants; get_serializations equals the C01 spelling list as a set for EVERY variant, disabled or not. Non-trivial = variant with >= 2 doc lines or uneven leading whitespace, or both message kinds plus naming attributes, or a disabled variant carrying messages; distinct by (program, variant, getter).", "a /** */ comment is one doc line containing newlines (measured)")
+            } else {
+                ("programs: EnumProperty enums x all kinds x 0..6 properties per variant over 1..3 props(..) groups mixed with other attributes, keys shared across variants and across types incl. keyword keys (type, fn, match, Self, crate, self, super, async, dyn), values: strings, integers (0, negatives, i64::MIN/MAX, hex), booleans; disabled variants. Queries: EVERY key declared anywhere in the enum, case / prefix / suffix / raw-prefix variations, the empty string and proptest-generated keys, through get_str, get_int and get_bool on every variant. Oracle: model union of all groups bucketed by literal type, None elsewhere. Non-trivial = declared key queried on a variant that lacks it or has it with fewer than all three types; distinct by (program, variant, key).", "a (key, type) pair is declared at most once per variant; raw-identifier keys are left out (stored with the r# prefix)")
+            };
+            Plan {
+                specs,
+                params: params(&[("cases", if thorough { 2000 } else { 200 })]),
+                strum_features: vec!["derive".into()],
+                profiles: vec!["dev"],
+                policy: Policy::TaggedOnly,
+                rule: rule.into(),
+                assumptions: vec![ass.into()],
+            }
+        }
+        "C10" => {
+            let reps = if thorough { 40 } else { 16 };
+            let mut specs = Vec::new();
+            for ne in 1..=8usize {
+                for _ in 0..reps {
+                    specs.push(gen::gen_table(&mut rg, ne));
+                }
+            }
+            name_specs(&mut specs, round);
+            Plan {
+                specs,
+                params: params(&[("depth", if thorough { 5 } else { 4 }), ("cases", if thorough { 10000 } else { 300 }), ("exhaustive_max_n", 4)]),
+                strum_features: vec!["derive".into()],
+                profiles: vec!["dev"],
+                policy: Policy::TaggedOnly,
+                rule: "programs: field-less enums deriving EnumTable with 1..8 enabled variants, 0..3 disabled ones anywhere, identifiers with digits / acronyms / underscores / keyword look-alikes. Oracle: a Vec model indexed by position in the enabled list. Constructors: new(10, 11, ..)[k_i] == 10 + i, filled, from_closure with an injective function of the key (never called with a disabled key), transform with f(k, v) = 100 * index(k) + v (source untouched), all() over EVERY Some/None mask and all_ok() over EVERY Ok/Err mask with distinct error payloads (first Err in declaration order), indexing / index_mut with each disabled variant must panic. Histories: ALL write / snapshot / compare sequences up to the stated length over all keys x values {0,1,2} for n <= 4 (after every write the whole table is read back), then proptest histories of length < 48 for every n. Non-trivial = history writing >= 2 distinct keys with distinct values, every mask; distinct by (program, history / mask).".into(),
+                assumptions: vec!["table API is used through the names predicted by the model on tagged lines".into()],
+            }
+        }
+        "C09" => {
+            let n = if thorough { 480 } else { 160 };
+            let mut specs: Vec<EnumSpec> = (0..n).map(|_| gen::gen_disc(&mut rg)).collect();
+            name_specs(&mut specs, round);
+            Plan {
+                specs,
+                params: params(&[("draws", if thorough { 32 } else { 8 })]),
+                strum_features: vec!["derive".into()],
+                profiles: vec!["dev"],
+                policy: Policy::TaggedOnly,
+                rule: "programs: EnumDiscriminants enums x all kinds x payload types that are neither Default nor Clone x type / lifetime parameters with bounds and where-clauses x repr (none, u8, i8, u16, i32, u64, align(4)+u8) x explicit discriminants (decimal, hex, shifts, gapped, descending) x name(..) x vis(pub | pub(crate) | pub(super) | empty | absent) x derive(..) lists (EnumIter, EnumString, Display, VariantNames, FromRepr, Hash, PartialOrd, Ord) x pass-through strum attributes at enum and variant level x docs; E's own #[strum] attributes present as decoys. Oracle: (i) an exhaustive wildcard-free match over the generated type with exactly the declared names must compile (tagged line); (ii) for every variant value built twice from generated payloads, From<&E>, From<E> and IntoDiscriminant::discriminant (when its impl is expected) give the variant with the same declaration index; (iii) D::V as R equals the model discriminant and e's own discriminant (cast / pointer read, cross-checked with rustc), size_of::<D>() == size_of::<R>() under a repr; (iv) every requested derive is observable on D under the overridden name, reached from outside the defining module unless vis() is empty: iter order, from_str / Display / VARIANTS with the pass-through naming (and never E's own spellings), from_repr, std traits by static assertion. Non-trivial = data-carrying enum with an explicit discriminant, generics or a pass-through attribute; distinct by (program, variant, payload draw).".into(),
+                assumptions: vec!["names of the generated type and of the API are written on tagged lines; an error there is a violation".into()],
+            }
+        }
+        "C13" => {
+            let n = if thorough { 480 } else { 192 };
+            let mut specs: Vec<EnumSpec> = (0..n).map(|_| gen::gen_shape(&mut rg)).collect();
+            name_specs(&mut specs, round);
+            Plan {
+                specs,
+                params: params(&[("draws", if thorough { 64 } else { 16 })]),
+                strum_features: vec!["derive".into()],
+                profiles: vec!["dev"],
+                policy: Policy::TaggedOnly,
+                rule: "programs: enums deriving EnumIs + EnumTryAs with 1..8 variants of all kinds, tuple variants with 0..3 fields of distinct and (deliberately) equal types, several variants with identical signatures, type and lifetime parameters, payload types without Default/Clone, identifiers with digits / acronyms / underscores, disabled variants; method names predicted by the model (snake_case, digits split off) and called on tagged lines (a missing or differently named method is a violation). Oracle: the full n x n matrix e_i.is_j() == (i == j) (all false for a disabled variant's value), try_as_j by value == Some(payload in order) iff i == j, _ref returns references pointer-equal to the fields found by a hand-written match, a write through _mut is visible in e afterwards, in order, and leaves other variants untouched. Non-trivial = enum with two tuple variants of the same signature or a variant with two fields of one type; distinct by (program, i, j, payload draw).".into(),
+                assumptions: vec!["identifiers where an underscore directly precedes a digit are kept out (statement does not fix their method name)".into()],
             }
         }
         _ => panic!("unknown property {}", id),
